@@ -21,7 +21,7 @@
 From Coq Require Import String.
 From Coq Require Import List NArith ZArith Bool.
 From Dials Require Import Base.Outcome Base.Runes Reflect.Ty Reflect.Ptrify Stack.Overlay Text.CaseConv
-  Text.ParseInt Text.Quote Text.Split Text.ParseText Sources.Flatten Sources.Env.
+  Text.ParseInt Text.Quote Text.Split Text.ParseText Sources.Flatten Sources.Env Sources.TimeText.
 Import ListNotations.
 Open Scope list_scope.
 Open Scope N_scope.
@@ -63,6 +63,7 @@ Inductive fkind :=
 | FkUint (bits : N)
 | FkFloat (bits : N) | FkComplex (bits : N) | FkDuration
 | FkText (ptr_recv : bool)    (* MarshalWrapper around a TextUnmarshaler struct *)
+| FkTime                      (* time.Time: flaghelper.TimeWrapper (std) / MarshalWrapper (pflag) *)
 | FkIP                        (* MarshalWrapper around net.IP *)
 | FkStrSlice (native : bool)  (* flaghelper.StringSliceFlag / pflag's own StringSlice *)
 | FkIntSlice (signed : bool) (bits : N)
@@ -73,7 +74,7 @@ Definition plain (name : str) : bool := match name with [] => true | _ => false 
 (* t: the leaf type with all pointers stripped *)
 Definition flag_kind (p : pkg) (t : ty) : option fkind :=
   match t with
-  | TTextU _ recv => Some (FkText recv)
+  | TTextU id recv => if recv && str_eqb id time_name then Some FkTime else Some (FkText recv)
   | TBasic k name =>
       if str_eqb name duration_name then Some FkDuration else
       match k with
@@ -189,6 +190,7 @@ Definition flag_set (k : fkind) (st : fstate) (text : str) : outcome fstate :=
   | FkFloat b => z <- parse_float b text ;; upd (VFloat z)
   | FkComplex b => v <- parse_complex b text ;; upd v
   | FkDuration => z <- parse_duration text ;; upd (VInt z)
+  | FkTime => v <- time_value text ;; upd v      (* Time.UnmarshalText: Sources/TimeText.v *)
   | FkText true => upd (VText text)
   | FkText false => upd (st_val st)
   | FkIP => v <- parse_ip text ;; upd v
